@@ -112,6 +112,11 @@ func inlineRound(p *Prog, baseline map[string]bool) (map[string][]byte, []string
 	for _, pk := range p.All {
 		bundle, bundled := explodeStructParams(p, pk, baseline)
 		inlined = append(inlined, bundled...)
+		scal, scalarized := scalarizeStructLocals(p, pk, baseline)
+		inlined = append(inlined, scalarized...)
+		for f, es := range scal {
+			bundle[f] = append(bundle[f], es...)
+		}
 		for _, file := range pk.Syntax {
 			tf := p.Fset.File(file.Pos())
 			if tf == nil {
@@ -2385,4 +2390,308 @@ func ShFingerprint(fn *ShCmd, funcs map[string]*ShCmd) []string {
 	})
 	sort.Strings(out)
 	return out
+}
+
+// scalarizeStructLocals undoes "let the phases talk through a small result struct": a local variable v of a struct type T
+// that the reference tree does not have, which is only ever (a) declared with `var v T` or `v := T{...}`, (b) assigned a
+// literal `v = T{...}`, (c) used as the operand of a field selection `v.f` (never &v, never passed or returned whole,
+// no method call), is replaced by one local per field (`v_f`). `v = T{a: x}` becomes the parallel assignment
+// `v_a, v_b = x, *new(Tb)` (fields the literal leaves out take their zero value). The rules then see plain locals,
+// which the value and flag tracking understand. All edits of one variable are made or none is; one variable per
+// function and round.
+func scalarizeStructLocals(p *Prog, pk *packages.Package, baseline map[string]bool) (map[*ast.File][]inlineEdit, []string) {
+	out := map[*ast.File][]inlineEdit{}
+	var done []string
+	info := pk.TypesInfo
+	short := strings.TrimPrefix(pk.PkgPath, ModPath+"/")
+	fileOf := func(pos token.Pos) *ast.File {
+		for _, f := range pk.Syntax {
+			if f.Pos() <= pos && pos < f.End() {
+				return f
+			}
+		}
+		return nil
+	}
+	text := func(n ast.Node) (string, bool) {
+		tf := p.Fset.File(n.Pos())
+		if tf == nil {
+			return "", false
+		}
+		src, err := p.ReadAbs(tf.Name())
+		if err != nil {
+			return "", false
+		}
+		return string(src[tf.Offset(n.Pos()):tf.Offset(n.End())]), true
+	}
+	knownStruct := func(name string) bool {
+		prefix := "fld\t" + short + "." + name + "."
+		for k := range baseline {
+			if strings.HasPrefix(k, prefix) {
+				return true
+			}
+		}
+		return false
+	}
+	structDecl := func(named *types.Named) *ast.StructType {
+		for _, sf := range pk.Syntax {
+			for _, d := range sf.Decls {
+				if gd, isG := d.(*ast.GenDecl); isG {
+					for _, sp := range gd.Specs {
+						if ts, isT := sp.(*ast.TypeSpec); isT && info.Defs[ts.Name] == types.Object(named.Obj()) {
+							st, _ := ts.Type.(*ast.StructType)
+							return st
+						}
+					}
+				}
+			}
+		}
+		return nil
+	}
+	for _, file := range pk.Syntax {
+		tf := p.Fset.File(file.Pos())
+		if tf == nil || isGenerated(tf.Name()) || strings.HasSuffix(tf.Name(), "_test.go") {
+			continue
+		}
+		for _, d := range file.Decls {
+			fd, ok := d.(*ast.FuncDecl)
+			if !ok || fd.Body == nil {
+				continue
+			}
+			// candidate variables: locals of an unknown named struct type of this package
+			cands := map[*types.Var]*types.Named{}
+			var order []*types.Var
+			ast.Inspect(fd.Body, func(n ast.Node) bool {
+				id, isId := n.(*ast.Ident)
+				if !isId {
+					return true
+				}
+				v, isV := info.Defs[id].(*types.Var)
+				if !isV || v.IsField() {
+					return true
+				}
+				named, isN := v.Type().(*types.Named)
+				if !isN || named.Obj().Pkg() != pk.Types || named.TypeArgs().Len() > 0 || knownStruct(named.Obj().Name()) {
+					return true
+				}
+				if st, isS := named.Underlying().(*types.Struct); isS && st.NumFields() > 0 {
+					if _, dup := cands[v]; !dup {
+						cands[v] = named
+						order = append(order, v)
+					}
+				}
+				return true
+			})
+		nextVar:
+			for _, v := range order {
+				named := cands[v]
+				st := named.Underlying().(*types.Struct)
+				for i := 0; i < st.NumFields(); i++ {
+					if st.Field(i).Embedded() {
+						continue nextVar
+					}
+				}
+				stDecl := structDecl(named)
+				if stDecl == nil || fileOf(stDecl.Pos()) != file {
+					continue
+				}
+				var fieldNames, fieldTypes []string
+				for _, f := range stDecl.Fields.List {
+					tt, okT := text(f.Type)
+					if !okT || len(f.Names) == 0 {
+						continue nextVar
+					}
+					for _, nm := range f.Names {
+						fieldNames = append(fieldNames, nm.Name)
+						fieldTypes = append(fieldTypes, tt)
+					}
+				}
+				if len(fieldNames) != st.NumFields() {
+					continue
+				}
+				name := v.Name()
+				litVals := func(lit *ast.CompositeLit) ([]string, bool) {
+					if !types.Identical(info.TypeOf(lit), named) {
+						return nil, false
+					}
+					vals := make([]string, len(fieldNames))
+					for i := range vals {
+						vals[i] = "*new(" + fieldTypes[i] + ")"
+					}
+					for i, e := range lit.Elts {
+						if kv, isKV := e.(*ast.KeyValueExpr); isKV {
+							key, isId := kv.Key.(*ast.Ident)
+							pos := -1
+							for j, nm := range fieldNames {
+								if isId && nm == key.Name {
+									pos = j
+								}
+							}
+							vt, okT := text(kv.Value)
+							if pos < 0 || !okT {
+								return nil, false
+							}
+							vals[pos] = vt
+						} else {
+							vt, okT := text(e)
+							if !okT || len(lit.Elts) != len(fieldNames) {
+								return nil, false
+							}
+							vals[i] = vt
+						}
+					}
+					return vals, true
+				}
+				// a literal value must not mention the variable itself (the parallel assignment would still be right, but
+				// keep the transformation obviously safe)
+				mentions := func(e ast.Node) bool {
+					found := false
+					ast.Inspect(e, func(n ast.Node) bool {
+						if id, isId := n.(*ast.Ident); isId && info.Uses[id] == types.Object(v) {
+							found = true
+						}
+						return !found
+					})
+					return found
+				}
+				var names []string
+				for _, fn := range fieldNames {
+					names = append(names, name+"_"+fn)
+				}
+				// no name clash with anything visible in the function
+				clash := false
+				ast.Inspect(fd, func(n ast.Node) bool {
+					if id, isId := n.(*ast.Ident); isId {
+						for _, nn := range names {
+							if id.Name == nn {
+								clash = true
+							}
+						}
+					}
+					return !clash
+				})
+				if clash {
+					continue
+				}
+				var edits []inlineEdit
+				okUses := true
+				handled := map[*ast.Ident]bool{}
+				// declarations and whole assignments: statements of a block
+				ast.Inspect(fd.Body, func(n ast.Node) bool {
+					var list []ast.Stmt
+					switch b := n.(type) {
+					case *ast.BlockStmt:
+						list = b.List
+					case *ast.CaseClause:
+						list = b.Body
+					case *ast.CommClause:
+						list = b.Body
+					}
+					for _, s := range list {
+						switch t := s.(type) {
+						case *ast.DeclStmt:
+							gd, isG := t.Decl.(*ast.GenDecl)
+							if !isG || gd.Tok != token.VAR || len(gd.Specs) != 1 {
+								continue
+							}
+							vs, isVS := gd.Specs[0].(*ast.ValueSpec)
+							if !isVS || len(vs.Names) != 1 || info.Defs[vs.Names[0]] != types.Object(v) {
+								continue
+							}
+							var sb strings.Builder
+							if len(vs.Values) == 0 {
+								for i := range names {
+									sb.WriteString("var " + names[i] + " " + fieldTypes[i] + "\n")
+								}
+							} else if lit, isLit := ast.Unparen(vs.Values[0]).(*ast.CompositeLit); isLit && len(vs.Values) == 1 && !mentions(lit) {
+								vals, okV := litVals(lit)
+								if !okV {
+									okUses = false
+									continue
+								}
+								for i := range names {
+									sb.WriteString("var " + names[i] + " " + fieldTypes[i] + " = " + vals[i] + "\n")
+								}
+							} else {
+								okUses = false
+								continue
+							}
+							sb.WriteString("_ = []any{" + strings.Join(names, ", ") + "}")
+							handled[vs.Names[0]] = true
+							edits = append(edits, inlineEdit{tf.Offset(t.Pos()), tf.Offset(t.End()), sb.String()})
+						case *ast.AssignStmt:
+							if len(t.Lhs) != 1 || len(t.Rhs) != 1 {
+								continue
+							}
+							id, isId := t.Lhs[0].(*ast.Ident)
+							if !isId || (info.Defs[id] != types.Object(v) && info.Uses[id] != types.Object(v)) {
+								continue
+							}
+							lit, isLit := ast.Unparen(t.Rhs[0]).(*ast.CompositeLit)
+							if !isLit || mentions(lit) {
+								okUses = false
+								continue
+							}
+							vals, okV := litVals(lit)
+							if !okV {
+								okUses = false
+								continue
+							}
+							handled[id] = true
+							if t.Tok == token.DEFINE {
+								var sb strings.Builder
+								for i := range names {
+									sb.WriteString("var " + names[i] + " " + fieldTypes[i] + " = " + vals[i] + "\n")
+								}
+								sb.WriteString("_ = []any{" + strings.Join(names, ", ") + "}")
+								edits = append(edits, inlineEdit{tf.Offset(t.Pos()), tf.Offset(t.End()), sb.String()})
+							} else {
+								edits = append(edits, inlineEdit{tf.Offset(t.Pos()), tf.Offset(t.End()), strings.Join(names, ", ") + " = " + strings.Join(vals, ", ")})
+							}
+						}
+					}
+					return true
+				})
+				if !okUses {
+					continue
+				}
+				// every other mention: the operand of a field selection that is not a method value and whose address is not taken
+				var stack []ast.Node
+				ast.Inspect(fd.Body, func(n ast.Node) bool {
+					if n == nil {
+						stack = stack[:len(stack)-1]
+						return true
+					}
+					if id, isId := n.(*ast.Ident); isId && !handled[id] && (info.Uses[id] == types.Object(v) || info.Defs[id] == types.Object(v)) {
+						sel, isSel := stack[len(stack)-1].(*ast.SelectorExpr)
+						if !isSel || sel.X != ast.Expr(id) {
+							okUses = false
+						} else {
+							if s := info.Selections[sel]; s == nil || s.Kind() != types.FieldVal {
+								okUses = false
+							}
+							if len(stack) >= 2 {
+								if u, isU := stack[len(stack)-2].(*ast.UnaryExpr); isU && u.Op == token.AND {
+									okUses = false
+								}
+							}
+						}
+						if okUses {
+							edits = append(edits, inlineEdit{tf.Offset(sel.Pos()), tf.Offset(sel.End()), name + "_" + sel.Sel.Name})
+						}
+					}
+					stack = append(stack, n)
+					return true
+				})
+				if !okUses || len(edits) == 0 {
+					continue
+				}
+				// the whole-value edits contain selections of their own only when a literal mentions v, which was refused
+				out[file] = append(out[file], edits...)
+				key := funcKey(pk, fd)
+				done = append(done, key+" <- local "+name+" of "+named.Obj().Name()+" (one variable per field)")
+				break // one variable of a function per round
+			}
+		}
+	}
+	return out, done
 }
